@@ -406,6 +406,15 @@ func c20SubscriberStack(r *Run) {
 		r.Fail("C20.R1", "Subscribe through the decorators failed", "%v", err)
 		return
 	}
+	// a quarter of the runs: the inner subscriber's messages arrive with a context that has already ended (a per-message
+	// deadline that has passed, say): a decorator passes them on like any other
+	if t.Chance(1, 4) {
+		inner.CtxDecor = func(ctx context.Context, m *message.Message, cancel context.CancelFunc) context.Context {
+			cancel()
+			return ctx
+		}
+		r.Fault("deliveries-with-ended-context")
+	}
 	// a sixth of the runs: the consumer keeps one message unsettled and stops reading; Close must still return
 	holdAt := -1
 	if t.Chance(1, 6) {
@@ -527,7 +536,7 @@ func c20RouterMetrics(r *Run) {
 			u := fmt.Sprintf("%s-m%d", h.name, m)
 			h.sub.Script["in"] = append(h.sub.Script["in"], ScriptMsg{UUID: u, Payload: "x"})
 			for a := 0; a <= 3; a++ {
-				h.plan[fmt.Sprintf("%s#%d", u, a)] = t.Int(5)
+				h.plan[fmt.Sprintf("%s#%d", u, a)] = t.Int(6)
 			}
 		}
 		hs = append(hs, h)
@@ -560,13 +569,19 @@ func c20RouterMetrics(r *Run) {
 			case 4:
 				wantHandler["handler_name="+hh.name+",success=true"]++
 				return nil, nil
+			case 5:
+				// the received message itself is passed on (it has been through the metrics subscriber decorator): the
+				// publish call counts like any other
+				wantHandler["handler_name="+hh.name+",success=true"]++
+				wantPub["handler_name="+hh.name+",publisher_name=scen.ScriptedPublisher,success=true"]++
+				return []*message.Message{m}, nil
 			}
 			wantHandler["handler_name="+hh.name+",success=true"]++
 			wantPub["handler_name="+hh.name+",publisher_name=scen.ScriptedPublisher,success=true"]++
 			return []*message.Message{o}, nil
 		})
 	}
-	r.Describe("Router with Prometheus metrics (decorators applied twice: %v), %d handlers with outcome plans success/error/panic/publish-failure/no-output", twice, nH)
+	r.Describe("Router with Prometheus metrics (decorators applied twice: %v), %d handlers with outcome plans success/error/panic/publish-failure/no-output/pass-the-received-message-on", twice, nH)
 	rig.Start()
 	r.Sim.Quiesce()
 	rig.Router.Close()
